@@ -96,9 +96,9 @@ theorem relP_init : RelP [] [] [] w0P ConnM.init := by
         regBound := fun p hp => by cases hp }
   · exact ⟨rfl, fun i hi => by
       have : i = 0 ∨ i = 1 ∨ i = 2 ∨ i = 3 := by omega
-      rcases this with rfl | rfl | rfl | rfl <;> rfl, rfl, rfl, rfl, rfl⟩
+      rcases this with rfl | rfl | rfl | rfl <;> rfl, rfl, rfl, rfl⟩
   · exact
-      { ne := by decide, cellO := rfl, cellS := rfl, lenC := rfl, lenA := rfl
+      { ne := by decide, cellO := rfl, cellS := rfl, lenC := rfl, lenA := rfl, obsv := rfl
         obs := fun i hi => by simp [ConnM.init] at hi
         acell := fun i hi => by simp [ConnM.init] at hi
         liveArmed := fun i hi => by simp [ConnM.init] at hi }
